@@ -63,7 +63,7 @@ class CheckC05(core.Check):
                             for seq in itertools.product(range(alpha_n), repeat=ln):
                                 descs.append((ci, be, d, "x:" + ",".join(map(str, seq))))
         for _ in range(20000 if quick else 400000):
-            descs.append((rnd.choice(CIPHERS), rnd.choice(["D", "R", "DR"]), rnd.randrange(2), "r:%d" % rnd.getrandbits(32)))
+            descs.append((rnd.choice(CIPHERS), rnd.choice(["D", "R", "DR", "D+df", "R+df"]), rnd.randrange(2), "r:%d" % rnd.getrandbits(32)))
         return descs
 
     def build(self, desc):
@@ -76,6 +76,7 @@ class CheckC05(core.Check):
         sessions.add_handshake(c, parsed, ["-", "-"], flags=("q",))
         sessions.add_convert(c)
         w, r = ("A", "B") if d == 0 else ("B", "A")
+        base = 0
         if spec.startswith("x:"):
             n = 3
             al = alphabet(3, [0, 1, 2, 3, MAXN])
@@ -83,25 +84,34 @@ class CheckC05(core.Check):
         else:
             rnd = random.Random(int(spec[2:]))
             n = rnd.randrange(2, 9)
-            al = alphabet(n, list(range(n + 1)) + [2**32, 2**64 - 2, MAXN])
+            # a quarter of the sessions live at the top of the counter range (sender placed there through the hook):
+            # message j then carries number base + j, the last one at most 2^64-2
+            if rnd.random() < 0.25:
+                base = MAXN - n - rnd.choice([0, 0, 1, 5])
+            al = alphabet(n, [base + i for i in range(n + 1)] + [0, 2**32, 2**64 - 2, MAXN])
+            if be.endswith("+df"):
+                al += [("decfault", 0)] * 3  # the back end's decrypt refuses these itself, with Error::Input
             ln = rnd.randrange(4, 41)
             # bias towards in-order delivery so that deep counters are reached
             sched = []
             nxt = 0
             for _ in range(ln):
-                if rnd.random() < 0.4 and nxt < n:
+                if rnd.random() < 0.4 and 0 <= nxt < n:
                     sched.append(("d", nxt))
                     nxt += 1
                 else:
                     s = rnd.choice(al)
                     sched.append(s)
                     if s[0] == "set":
-                        nxt = s[1]
+                        nxt = s[1] - base
         sizes = [12] * n
         if not spec.startswith("x:"):
             sizes = [rnd.choice([12, 12, 12, 0, 1, 65519, 4096]) for _ in range(n)]
         # refused writes between the genuine ones: they are not messages, so message j is still the j-th *successful* write
         refused = []
+        if base:
+            c.op("set_tx_nonce", w, n=base)
+            c.op("set_rx_nonce", r, n=base)
         for j in range(n):
             if spec.startswith("x:"):
                 rk = {1: "long", 2: "smallbuf"}.get(j)
@@ -131,11 +141,13 @@ class CheckC05(core.Check):
                 lab = c.op("t_read", r, msg="$g0~ext:zero:%d" % (65536 - 28), buf=BIG)
             elif kind == "short":
                 lab = c.op("t_read", r, msg="$g0~trunc:15", buf=BIG)
+            elif kind == "decfault":
+                lab = c.op("t_read", r, msg="lit:decfa0177666" + "%080x" % rnd.getrandbits(320), buf=BIG)
             else:
                 lab = c.op("set_rx_nonce", r, n=v)
             steps.append((lab, kind, v))
         c.meta["steps"] = steps
-        c.info = {"key": (ci, be, d, spec), "n": n, "sizes": sizes}
+        c.info = {"key": (ci, be, d, spec), "n": n, "sizes": sizes, "base": base}
         return c
 
     def judge(self, case, events, death):
@@ -144,8 +156,11 @@ class CheckC05(core.Check):
             r.foreign_dev("C10", "driver died")
             return r
         by = {e.label: e for e in events}
-        rn = 0
+        base = case.info.get("base", 0)
+        rn = base
         acc = rej = 0
+        if base:
+            r.stats["sessions_at_top_of_counter_range"] += 1
         ci, be, d, spec = case.info["key"]
         for lab in case.meta.get("refused", []):
             e = by.get(str(lab))
@@ -170,10 +185,10 @@ class CheckC05(core.Check):
                 rn = v
             else:
                 r.stats["deliveries_judged"] += 1
-                should = kind == "d" and v == rn and rn != MAXN
+                should = kind == "d" and base + v == rn and rn != MAXN
                 if should:
                     if not e.ok:
-                        r.viol("C05|next-rejected|%s" % e.errkind(), "%s/%s dir %d: message %d is the next expected one (rn=%d) but was rejected with %s; schedule %s" % (ci, be, d, v, rn, e.res, spec))
+                        r.viol("C05|next-rejected|%s" % e.errkind(), "%s/%s dir %d: message %d (number %d) is the next expected one (rn=%d) but was rejected with %s; schedule %s" % (ci, be, d, v, base + v, rn, e.res, spec))
                         return r
                     from ..shadow import out_matches
 
@@ -185,8 +200,8 @@ class CheckC05(core.Check):
                 else:
                     if e.ok:
                         r.viol(
-                            "C05|accepted|%s|%s" % (kind, "replay" if kind == "d" and v < rn else ("future" if kind == "d" else "invalid")),
-                            "%s/%s dir %d: delivery (%s %d) accepted although the next expected message is %d; schedule %s" % (ci, be, d, kind, v, rn, spec),
+                            "C05|accepted|%s|%s" % (kind, "replay" if kind == "d" and base + v < rn else ("future" if kind == "d" else "invalid")),
+                            "%s/%s dir %d: delivery (%s %d, number %d) accepted although the next expected message is %d; schedule %s" % (ci, be, d, kind, v, base + v, rn, spec),
                         )
                         return r
                     rej += 1
